@@ -618,6 +618,7 @@ def pinResponse (auth exhausted : Bool) : Bool × Bool × Int := (auth, exhauste
 # C14: paths
 
 SAFE_JOIN = Spec(
+    canon_empty=False,  # (predates the option: `filename != ""` stays `!(filename == [])`)
     module="security.py",
     qualname="safe_join",
     name="safe_join",
@@ -831,6 +832,67 @@ LS_EXHAUST = Spec(
 )
 
 
+def _sansio_gcl(n):
+    """`_sansio_utils.get_content_length(http_content_length=X, http_transfer_encoding=Y)` -> [X, Y]"""
+    import ast
+
+    if isinstance(n, ast.Call) and py2lean.dotted(n.func) == "_sansio_utils.get_content_length" and not n.args and sorted(k.arg for k in n.keywords) == ["http_content_length", "http_transfer_encoding"]:
+        by = {k.arg: k.value for k in n.keywords}
+        return [by["http_content_length"], by["http_transfer_encoding"]]
+    return None
+
+
+WSGI_GET_CONTENT_LENGTH = Spec(
+    module=_LS,
+    qualname="get_content_length",
+    name="wsgi_get_content_length",
+    # the text-valued entries of the WSGI environ
+    params=[("environ", "Dict Str Str")],
+    result="Option Int",
+    patterns=[(_sansio_gcl, Fn("get_content_length", [Opt(STR), Opt(STR)], Opt(INT)))],
+)
+py2lean.ABSTRACT_TYPES.add("Wz.LS.Choice")
+_CHOICE = py2lean.Abs("Wz.LS.Choice")
+
+
+def _limited_stream_ctor(n):
+    """`LimitedStream(stream, N)` / `LimitedStream(stream, N, is_max=B)` -> [N, B]"""
+    import ast
+
+    if isinstance(n, ast.Call) and isinstance(n.func, ast.Name) and n.func.id == "LimitedStream" and len(n.args) == 2 and isinstance(n.args[0], ast.Name) and n.args[0].id == "stream":
+        if not n.keywords:
+            f = ast.Constant(value=False)
+            ast.copy_location(f, n)
+            return [n.args[1], f]
+        if len(n.keywords) == 1 and n.keywords[0].arg == "is_max":
+            return [n.args[1], n.keywords[0].value]
+    return None
+
+
+GET_INPUT_STREAM = Spec(
+    module=_LS,
+    qualname="get_input_stream",
+    name="get_input_stream",
+    # which stream is returned (the model's `LS.Choice`): `environ["wsgi.input"]` itself, `io.BytesIO()`, or a
+    # `LimitedStream` with its limit and `is_max`; `"wsgi.input_terminated" in environ` is a parameter
+    opaque=[("terminated", "Bool")],
+    params=[("environ", "Dict Str Str"), ("safe_fallback", "Bool"), ("max_content_length", "Option Int")],
+    result="Wz.LS.Choice",
+    raises=True,
+    calls={"get_content_length": Fn("wsgi_get_content_length", [py2lean.Dct(STR, STR)], Opt(INT))},
+    patterns=[
+        (_src_matcher("environ['wsgi.input']"), Fn("Wz.LS.Choice.raw", [], _CHOICE)),
+        (_src_matcher("'wsgi.input_terminated' in environ"), Fn("terminated", [], BOOL)),
+        (_src_matcher("io.BytesIO()"), Fn("Wz.LS.Choice.empty", [], _CHOICE)),
+        (_limited_stream_ctor, Fn("choiceLimited", [INT, BOOL], _CHOICE)),
+    ],
+)
+_CHOICE_GLUE = """/-- `LimitedStream(stream, limit, is_max)` as the model's choice (the limit is a natural number there) -/
+def choiceLimited (limit : Int) (isMax : Bool) : Wz.LS.Choice := .limited limit.toNat isMax
+
+"""
+
+
 @generator("PyFns_Length")
 def gen_length():
     extra = """/-- `self._stream.readinto(buf)` on the model's underlying stream: one call asking for `len(buf)`
@@ -859,7 +921,7 @@ def ls_raw_read (has_readinto : Bool) (self_limit : Int) (self__limit_is_max : B
     | .ok k => .ok (r.1.2.2.take k.toNat))
 
 """
-    return emit_parts("Length", [[GET_CONTENT_LENGTH], extra, [LS_IS_EXHAUSTED, LS_ON_EXHAUSTED, LS_ON_DISCONNECT, LS_TELL, LS_READINTO], glue, [LS_READALL, LS_EXHAUST]], imports=["WzVerif.Gen.PyFns_Internal", "WzVerif.Model.LimitedStream"])
+    return emit_parts("Length", [[GET_CONTENT_LENGTH], extra, [LS_IS_EXHAUSTED, LS_ON_EXHAUSTED, LS_ON_DISCONNECT, LS_TELL, LS_READINTO], glue, [LS_READALL, LS_EXHAUST], _CHOICE_GLUE, [WSGI_GET_CONTENT_LENGTH, GET_INPUT_STREAM]], imports=["WzVerif.Gen.PyFns_Internal", "WzVerif.Model.LimitedStream"])
 
 
 # --------------------------------------------------------------------------
@@ -1512,6 +1574,73 @@ PROCESS_RANGE_REQUEST_STR = Spec(
 )
 
 
+def _content_length_absent(n):
+    """`'content-length' not in self.headers` -> [the Content-Length `_process_range_request` may have written]"""
+    import ast
+
+    try:
+        if ast.unparse(n) == "'content-length' not in self.headers":
+            return [ast.parse("self.out_content_length", mode="eval").body]
+    except Exception:  # noqa: BLE001
+        pass
+    return None
+
+
+def _prr_call(n):
+    """`self._process_range_request(environ, complete_length, accept_ranges)` -> [None (the environ is only asked
+    through the parameters `processable` / `http_range`), complete_length, accept_ranges]"""
+    import ast
+
+    if isinstance(n, ast.Call) and py2lean.dotted(n.func) == "self._process_range_request" and len(n.args) == 3 and not n.keywords:
+        none = ast.Constant(value=None)
+        ast.copy_location(none, n)
+        return [none, n.args[1], n.args[2]]
+    return None
+
+
+_MC_STATE = ["out_date"] + _PRR_STATE
+MAKE_CONDITIONAL = Spec(
+    module=_RESP,
+    qualname="Response.make_conditional",
+    name="make_conditional_bool",
+    # what the request and the response headers are asked: parameters; what the method writes
+    # (Date, status, Content-Length, and everything `_process_range_request` writes): `out_*`
+    opaque=[
+        ("request_method", "Pre.Str"), ("has_date", "Bool"), ("modified", "Bool"), ("if_match_given", "Bool"),
+        ("processable", "Bool"), ("http_range", "Option Pre.Str"),
+        ("auto_content_length", "Bool"), ("has_content_length", "Bool"), ("calculated_length", "Option Int"),
+    ],
+    params=[("self.out_date", "Bool")] + _PRR_PARAMS + [("request_or_environ", "Unit"), ("accept_ranges", "Bool"), ("complete_length", "Option Int")],
+    state=_MC_STATE,
+    result="Unit",
+    raises=True,
+    retype=["accept_ranges"],
+    patterns=[
+        (_prr_call, Fn(
+            "process_range_request_bool processable http_range", [py2lean.NONE, Opt(INT), BOOL], BOOL,
+            raises=("RequestedRangeNotSatisfiable", "ValueError", "IndexError"), state=tuple("self." + k for k in _PRR_STATE),
+        )),
+        (_src_matcher("_get_environ(request_or_environ)"), Fn("()", [], py2lean.NONE)),
+        (_src_matcher("environ['REQUEST_METHOD']"), Fn("request_method", [], STR)),
+        (_src_matcher("'date' not in self.headers"), Fn("(!has_date)", [], BOOL)),
+        (_src_matcher("is_resource_modified(environ, self.headers.get('etag'), None, self.headers.get('last-modified'))"), Fn("modified", [], BOOL)),
+        (_src_matcher("parse_etags(environ.get('HTTP_IF_MATCH'))"), Fn("if_match_given", [], BOOL)),
+        (_src_matcher("self.automatically_set_content_length"), Fn("auto_content_length", [], BOOL)),
+        # a Content-Length written by `_process_range_request` counts
+        (_content_length_absent, Fn("contentLengthAbsent has_content_length", [Opt(INT)], BOOL)),
+        (_src_matcher("self.calculate_content_length()"), Fn("calculated_length", [], Opt(INT))),
+        (_src_matcher("self"), Fn("()", [], py2lean.NONE)),
+    ],
+    effects={
+        "self.headers['Date'] = http_date()": [("self.out_date", "True")],
+        "self.status_code = 412": [("self.out_status", "412")],
+        "self.status_code = 304": [("self.out_status", "304")],
+        "self.headers['Content-Length'] = str(length)": [("self.out_content_length", "length")],
+    },
+    doc="`Response.make_conditional` of src/werkzeug/wrappers/response.py for `accept_ranges: bool`, translated by tools/py2lean.py",
+)
+
+
 @generator("PyFns_Response")
 def gen_response():
     extra = """/-- `int(text)` through C06's hand model `pyInt` -/
@@ -1523,8 +1652,12 @@ def statusPhraseUpper (phrase : Int → Option Pre.Str) (code : Int) : Except St
   | some p => .ok (Pre.upper p)
   | none => .error "KeyError"
 
+/-- `"content-length" not in self.headers` in `make_conditional`: neither present before the call nor
+written by `_process_range_request` -/
+def contentLengthAbsent (had : Bool) (written : Option Int) : Bool := !(had || written.isSome)
+
 """
-    return emit("Response", [CLEAN_STATUS_STR, CLEAN_STATUS_INT, GET_APP_ITER, IS_RANGE_REQUEST_PROCESSABLE, RANGE_TO_CONTENT_RANGE_HEADER, PROCESS_RANGE_REQUEST_BOOL, PROCESS_RANGE_REQUEST_STR], imports=["WzVerif.Model.Http", "WzVerif.Gen.PyFns_Range"], extra=extra)
+    return emit("Response", [CLEAN_STATUS_STR, CLEAN_STATUS_INT, GET_APP_ITER, IS_RANGE_REQUEST_PROCESSABLE, RANGE_TO_CONTENT_RANGE_HEADER, PROCESS_RANGE_REQUEST_BOOL, PROCESS_RANGE_REQUEST_STR, MAKE_CONDITIONAL], imports=["WzVerif.Model.Http", "WzVerif.Gen.PyFns_Range"], extra=extra)
 
 
 # --------------------------------------------------------------------------
@@ -1664,6 +1797,19 @@ HTTP_PARSE_COOKIE = Spec(
     ],
 )
 
+HTTP_PARSE_COOKIE_ENVIRON = Spec(
+    module="http.py",
+    qualname="parse_cookie",
+    name="http_parse_cookie_environ",
+    # the WSGI environ form of `header`: a dict of texts, `HTTP_COOKIE` is looked up first
+    params=[("header", "Dict Str Str"), ("cls", "Unit")],
+    result="List (Str × Str)",
+    raises=True,
+    static={"isinstance(header, dict)": True},
+    patterns=HTTP_PARSE_COOKIE.patterns,
+    doc="`werkzeug.http.parse_cookie(environ)` of src/werkzeug/http.py for a WSGI environ, translated by tools/py2lean.py",
+)
+
 
 @generator("PyFns_Cookie")
 def gen_cookie():
@@ -1692,7 +1838,7 @@ the model's `unslash` (octal / backslash escapes over the regenerated byte class
 def cookieUnslashValue (inner : Pre.Str) : Pre.Str := Py.decodeReplace (Wz.Cookie.unslash (utf8Enc inner))
 
 """
-    return emit("Cookie", [dump_cookie_spec(), SANSIO_PARSE_COOKIE, HTTP_PARSE_COOKIE], imports=["WzVerif.Model.Cookie", "WzVerif.Model.Url"], extra=extra)
+    return emit("Cookie", [dump_cookie_spec(), SANSIO_PARSE_COOKIE, HTTP_PARSE_COOKIE, HTTP_PARSE_COOKIE_ENVIRON], imports=["WzVerif.Model.Cookie", "WzVerif.Model.Url"], extra=extra)
 
 
 # --------------------------------------------------------------------------
@@ -1960,6 +2106,187 @@ def gen_encoder():
 
 
 # --------------------------------------------------------------------------
+# C01 / C10: multipart decoder (`MultipartDecoder._parse_data`, `next_event`)
+
+_MPM = Tup(INT, INT, BOOL)  # a match object: (start(), end(), group(1).startswith(b"--"))
+_MPM_METHODS = {("Tup", "start"): Fn("Prod.fst", [_MPM], INT), ("Tup", "end"): Fn("mpEnd", [_MPM], INT)}
+PARSE_DATA = Spec(
+    module="sansio/multipart.py",
+    qualname="MultipartDecoder._parse_data",
+    name="parse_data",
+    params=[("self.state", _MP_STATE), ("data", "Bytes"), ("start", "Bool"), ("self.boundary", "Bytes"), ("self.buffer", "Bytes")],
+    state=["state"],
+    result="Bytes × Int × Bool",
+    raises=True,
+    eq_types=[_MP_STATE],
+    consts={"State.EPILOGUE": ("Wz.Multipart.State.epilogue", _MP_STATE), "State.PART": ("Wz.Multipart.State.part", _MP_STATE)},
+    # `LINE_BREAK_RE.match`, `self.boundary_re.search`: the hand-written matchers of Model/Multipart.lean
+    # (compared with the real regexes by stream regex-kernels), as (start, end, closing?) triples
+    calls={
+        "LINE_BREAK_RE.match": Fn("lineBreakReMatch", [py2lean.BYTES], Opt(_MPM)),
+        "self.boundary_re.search": Fn("boundaryReSearch self_boundary", [py2lean.BYTES], Opt(_MPM)),
+        "self.last_newline": Fn("Gen.PyFns_Multipart.last_newline", [py2lean.BYTES], INT),
+        "bytes": Fn("id", [py2lean.BYTES], py2lean.BYTES),
+    },
+    patterns=[
+        (_src_matcher("match.group(1).startswith(b'--')"), Fn("mpClosing match_", [], BOOL)),
+    ],
+    methods=_MPM_METHODS,
+)
+
+_MP_EVENT = "Wz.Multipart.Event"
+py2lean.ABSTRACT_TYPES.add(_MP_EVENT)
+_EVT = py2lean.Abs(_MP_EVENT)
+_HDRS = py2lean.Lst(Tup(STR, STR))
+PARSE_HEADERS = Spec(
+    module="sansio/multipart.py",
+    qualname="MultipartDecoder._parse_headers",
+    name="parse_headers",
+    params=[("data", "Bytes")],
+    result="List (Str × Str)",
+    raises=True,
+    locals={"headers": "List (Str × Str)"},
+    # `HEADER_CONTINUATION_RE.sub(b" ", data)`, `bytes.splitlines()`, `bytes.strip()`: the hand-written
+    # kernels of Model/Multipart.lean (stream regex-kernels); `bytes.decode()` is strict UTF-8
+    calls={"Headers": Fn("id", [_HDRS], _HDRS)},
+    patterns=[
+        (_src_matcher("HEADER_CONTINUATION_RE.sub(b' ', data)"), Fn("Wz.Multipart.foldContinuations data", [], py2lean.BYTES)),
+        (_src_matcher("data.splitlines()"), Fn("Wz.Multipart.splitLines data", [], py2lean.Lst(py2lean.BYTES))),
+        (_src_matcher("line.strip()"), Fn("Wz.Multipart.stripBytes line", [], py2lean.BYTES)),
+        (_src_matcher("line.decode()"), Fn("decodeUtf8Strict line", [], STR, raises=("UnicodeDecodeError",))),
+    ],
+)
+
+
+def _parse_data_call(start):
+    import ast
+
+    def m(n):
+        if (isinstance(n, ast.Call) and py2lean.dotted(n.func) == "self._parse_data" and len(n.args) == 1 and len(n.keywords) == 1
+                and n.keywords[0].arg == "start" and isinstance(n.keywords[0].value, ast.Constant) and n.keywords[0].value.value is start):
+            return [n.args[0], n.keywords[0].value]
+        return None
+
+    return m
+
+
+def _isinstance_of(var, cls):
+    """matcher for `isinstance(<var>, <cls>)` -> [<var>]"""
+    import ast
+
+    def m(n):
+        if (isinstance(n, ast.Call) and isinstance(n.func, ast.Name) and n.func.id == "isinstance" and len(n.args) == 2 and not n.keywords
+                and isinstance(n.args[0], ast.Name) and n.args[0].id == var and isinstance(n.args[1], ast.Name) and n.args[1].id == cls):
+            return [n.args[0]]
+        return None
+
+    return m
+
+
+def _kw_ctor(cls, *kws):
+    """matcher for `Cls(k1=X1, k2=X2, ...)` (keywords in any order) -> [X for the names in `kws`]"""
+    import ast
+
+    def m(n):
+        if isinstance(n, ast.Call) and isinstance(n.func, ast.Name) and n.func.id == cls and not n.args and sorted(k.arg for k in n.keywords) == sorted(kws):
+            by = {k.arg: k.value for k in n.keywords}
+            return [by[k] for k in kws]
+        return None
+
+    return m
+
+
+_PD_FN = Fn("parse_data", [py2lean.BYTES, BOOL], Tup(py2lean.BYTES, INT, BOOL), raises=("AttributeError",), state=("self.state",), suffix=("self_boundary", "self_buffer"))
+NEXT_EVENT = Spec(
+    module="sansio/multipart.py",
+    qualname="MultipartDecoder.next_event",
+    name="next_event",
+    # `parse_options_header` (C06/C07's function) stays a parameter
+    opaque=[("parse_options", "Pre.Str → Except String (Pre.Str × List (Pre.Str × Pre.Str))")],
+    params=[
+        ("self.buffer", "Bytes"), ("self.state", _MP_STATE), ("self._search_position", "Int"), ("self._parts_decoded", "Int"),
+        ("self.boundary", "Bytes"), ("self.complete", "Bool"), ("self.max_parts", "Option Int"),
+    ],
+    state=["buffer", "state", "_search_position", "_parts_decoded"],
+    result=_MP_EVENT,
+    raises=True,
+    eq_types=[_MP_STATE, _MP_EVENT],
+    consts={
+        "State.PREAMBLE": ("Wz.Multipart.State.preamble", _MP_STATE), "State.PART": ("Wz.Multipart.State.part", _MP_STATE),
+        "State.DATA_START": ("Wz.Multipart.State.dataStart", _MP_STATE), "State.DATA": ("Wz.Multipart.State.data", _MP_STATE),
+        "State.EPILOGUE": ("Wz.Multipart.State.epilogue", _MP_STATE), "State.COMPLETE": ("Wz.Multipart.State.complete", _MP_STATE),
+        "NEED_DATA": ("Wz.Multipart.Event.needData", _MP_EVENT),
+        "SEARCH_EXTRA_LENGTH": ("(Wz.Multipart.searchExtra : Nat)", "Int"),
+    },
+    locals={"event": _MP_EVENT},
+    calls={
+        "self.preamble_re.search": Fn("preambleReSearch self_boundary", [py2lean.BYTES, INT], Opt(_MPM)),
+        "BLANK_LINE_RE.search": Fn("blankLineReSearch", [py2lean.BYTES, INT], Opt(_MPM)),
+        "self._parse_headers": Fn("parse_headers", [py2lean.BYTES], _HDRS, raises=("UnicodeDecodeError",)),
+        "parse_options_header": Fn("parse_options", [STR], Tup(STR, py2lean.Dct(STR, STR)), raises=("ValueError",)),
+        "bytes": Fn("id", [py2lean.BYTES], py2lean.BYTES),
+    },
+    in_ops={"headers": Fn("headersHas headers", [STR], BOOL)},
+    patterns=[
+        (_src_matcher("match.group(1).startswith(b'--')"), Fn("mpClosing match_", [], BOOL)),
+        (_src_matcher("headers['content-disposition']"), Fn("headersGetD headers ['c', 'o', 'n', 't', 'e', 'n', 't', '-', 'd', 'i', 's', 'p', 'o', 's', 'i', 't', 'i', 'o', 'n']", [], STR)),
+        (_parse_data_call(True), _PD_FN),
+        (_parse_data_call(False), _PD_FN),
+        (_kw_ctor("Preamble", "data"), Fn("Wz.Multipart.Event.preamble", [py2lean.BYTES], _EVT)),
+        (_kw_ctor("Field", "name", "headers"), Fn("Wz.Multipart.Event.field", [Opt(STR), _HDRS], _EVT)),
+        (_kw_ctor("File", "name", "filename", "headers"), Fn("Wz.Multipart.Event.file", [Opt(STR), STR, _HDRS], _EVT)),
+        (_kw_ctor("Data", "data", "more_data"), Fn("Wz.Multipart.Event.data", [py2lean.BYTES, BOOL], _EVT)),
+        (_kw_ctor("Epilogue", "data"), Fn("Wz.Multipart.Event.epilogue", [py2lean.BYTES], _EVT)),
+        (_isinstance_of("event", "NeedData"), Fn("isNeedData", [_EVT], BOOL)),
+    ],
+    methods=_MPM_METHODS,
+)
+_DECODER_GLUE2 = """
+/-- `self.preamble_re.search(buffer, pos)` through the hand-written `searchDelimFrom` (Model/Multipart.lean) -/
+def preambleReSearch (bnd buf : Bytes) (pos : Int) : Option (Int × Int × Bool) :=
+  (Wz.Multipart.searchDelimFrom bnd true pos.toNat buf).map fun r => ((r.1 : Nat), (r.2.1 : Nat), r.2.2)
+
+/-- `BLANK_LINE_RE.search(buffer, pos)` through the hand-written `searchBlankFrom` (Model/Multipart.lean) -/
+def blankLineReSearch (buf : Bytes) (pos : Int) : Option (Int × Int × Bool) :=
+  (Wz.Multipart.searchBlankFrom pos.toNat buf).map fun r => ((r.1 : Nat), (r.2 : Nat), false)
+
+/-- `isinstance(event, NeedData)` -/
+def isNeedData (ev : Wz.Multipart.Event) : Bool := ev == Wz.Multipart.Event.needData
+
+/-- `line.decode()`: strict UTF-8 -/
+def decodeUtf8Strict (b : Bytes) : Except String Pre.Str :=
+  match utf8Dec? b with
+  | some s => .ok s
+  | none => .error "UnicodeDecodeError"
+
+/-- `key in headers` (`Headers.__contains__`: the names are compared case-insensitively) for a lower-case key -/
+def headersHas (h : List (Pre.Str × Pre.Str)) (key : Pre.Str) : Bool := (Wz.Multipart.headerGet key h).isSome
+
+/-- `headers[key]` for a key that is present (`Headers.__getitem__`: the first value) -/
+def headersGetD (h : List (Pre.Str × Pre.Str)) (key : Pre.Str) : Pre.Str := (Wz.Multipart.headerGet key h).getD []
+"""
+_DECODER_GLUE = """/-- `m.end()` of a match object `(start, end, closing?)` -/
+def mpEnd (m : Int × Int × Bool) : Int := m.2.1
+
+/-- `m.group(1).startswith(b"--")` of a match object of `preamble_re` / `boundary_re` -/
+def mpClosing (m : Int × Int × Bool) : Bool := m.2.2
+
+/-- `LINE_BREAK_RE.match(data)` through the hand-written kernel `lbLen` (Model/Multipart.lean) -/
+def lineBreakReMatch (data : Bytes) : Option (Int × Int × Bool) :=
+  if Wz.Multipart.lbLen data > 0 then some (0, (Wz.Multipart.lbLen data : Nat), false) else none
+
+/-- `self.boundary_re.search(data)` through the hand-written `searchDelim` (Model/Multipart.lean) -/
+def boundaryReSearch (bnd data : Bytes) : Option (Int × Int × Bool) :=
+  (Wz.Multipart.searchDelim bnd false data).map fun r => ((r.1 : Nat), (r.2.1 : Nat), r.2.2)
+"""
+
+
+@generator("PyFns_Decoder")
+def gen_decoder():
+    return emit_parts("Decoder", [_DECODER_GLUE + _DECODER_GLUE2, [PARSE_DATA, PARSE_HEADERS, NEXT_EVENT]], imports=("WzVerif.Model.Multipart", "WzVerif.Gen.PyFns_Multipart"))
+
+
+# --------------------------------------------------------------------------
 # C12: the redirect URL glue of `MapAdapter` (routing/map.py)
 
 _MAP = "routing/map.py"
@@ -2061,24 +2388,25 @@ _MD_T = py2lean.Dct(STR, py2lean.Lst(_NU))
 _LNU = py2lean.Lst(_NU)
 
 
-def _super_call(method, nargs):
-    """matcher for `super().<method>(a1..an)` -> [a1..an]"""
+def _super_call(method, nargs, with_self=False):
+    """matcher for `super().<method>(a1..an)` -> [a1..an] (`with_self`: the object's dict `self.d` first -
+    as a node, so that it is looked up in the environment where the call stands)"""
     import ast
 
     def m(n):
         if (isinstance(n, ast.Call) and isinstance(n.func, ast.Attribute) and n.func.attr == method and not n.keywords and len(n.args) == nargs
                 and isinstance(n.func.value, ast.Call) and isinstance(n.func.value.func, ast.Name) and n.func.value.func.id == "super"
                 and not n.func.value.args and not n.func.value.keywords):
-            return list(n.args)
+            return ([ast.parse("self.d", mode="eval").body] if with_self else []) + list(n.args)
         return None
 
     return m
 
 
 _MD_READS = [
-    (_super_call("__getitem__", 1), Fn("Pre.dictGetItem self_d", [STR], _LNU, raises=("KeyError",))),
-    (_super_call("items", 0), Fn("Pre.dictItems self_d", [], py2lean.Lst(Tup(STR, _LNU)))),
-    (_super_call("values", 0), Fn("Pre.dictValues self_d", [], py2lean.Lst(_LNU))),
+    (_super_call("__getitem__", 1, True), Fn("Pre.dictGetItem", [_MD_T, STR], _LNU, raises=("KeyError",))),
+    (_super_call("items", 0, True), Fn("Pre.dictItems", [_MD_T], py2lean.Lst(Tup(STR, _LNU)))),
+    (_super_call("values", 0, True), Fn("Pre.dictValues", [_MD_T], py2lean.Lst(_LNU))),
 ]
 _MD_COMMON = dict(module=_MDS, type_params=["ν"], in_ops={"self": Fn("Pre.dictHas self_d", [STR], BOOL)})
 _MD_CALLS = {
@@ -2123,10 +2451,235 @@ MD_VALUES = Spec(qualname="MultiDict.values", name="md_values", params=[("self.d
 MD_LISTVALUES = Spec(qualname="MultiDict.listvalues", name="md_listvalues", params=[("self.d", _MD_TY)], result="List (List ν)", patterns=_MD_READS, **_MD_COMMON)
 MD_ITEMS = Spec(qualname="MultiDict.items", name="md_items", params=[("self.d", _MD_TY), ("multi", "Bool")], result="List (Str × ν)", raises=True, patterns=_MD_READS, **_MD_COMMON)
 
+_MD_STATE = ("self.d",)
+MD_SETDEFAULT = Spec(
+    qualname="MultiDict.setdefault", name="md_setdefault", params=[("self.d", _MD_TY), ("key", "Str"), ("default", "ν")], state=["d"], result="ν", raises=True,
+    # `self[key] = default` is `__setitem__`, `self[key]` is `__getitem__` (both translated above)
+    effects={"self[key] = default": [("self.d", "md_setitem_(self.d, key, default)")]},
+    calls={"md_setitem_": Fn("md_setitem", [_MD_T, STR, _NU], _MD_T)},
+    patterns=[(_src_matcher("self[key]"), Fn("md_getitem self_d key", [], _NU, raises=("BadRequestKeyError",)))],
+    **_MD_COMMON,
+)
+MD_SETLISTDEFAULT = Spec(
+    qualname="MultiDict.setlistdefault", name="md_setlistdefault", params=[("self.d", _MD_TY), ("key", "Str"), ("default_list", "Option (List ν)")], state=["d"], result="List ν", raises=True,
+    effects={"super().__setitem__(key, list(default_list or ()))": [("self.d", "dict_set(self.d, key, list(default_list or ()))")]},
+    calls={**_MD_CALLS, "list": Fn("id", [_LNU], _LNU)}, patterns=_MD_READS, **_MD_COMMON,
+)
+
+
+_KV_L = Tup(STR, _LNU)
+_MD_POPS = [
+    # `super().pop(key)`: the list stored under the key, which is removed (KeyError when absent);
+    # `super().pop(key, [])`: the same with a default; `super().popitem()`: the entry inserted last
+    (_super_call("pop", 1), Fn("Pre.dictPop", [STR], _LNU, raises=("KeyError",), effect_key="self.d")),
+    (_super_call("pop", 2), Fn("Pre.dictPopD", [STR, _LNU], _LNU, effect_key="self.d")),
+    (_super_call("popitem", 0), Fn("Pre.dictPopitem", [], _KV_L, raises=("KeyError",), effect_key="self.d")),
+]
+
+
+def md_pop_spec(with_default):
+    return Spec(
+        qualname="MultiDict.pop", name="md_pop_default" if with_default else "md_pop",
+        params=[("self.d", _MD_TY), ("key", "Str"), ("default", "ν" if with_default else "Unit")], state=["d"], result="ν", raises=True,
+        static={"default is not _missing": with_default},
+        patterns=_MD_POPS,
+        doc=f"`MultiDict.pop(key{', default' if with_default else ''})` of src/werkzeug/datastructures/structures.py, translated by tools/py2lean.py",
+        **_MD_COMMON,
+    )
+
+
+MD_POP = md_pop_spec(False)
+MD_POP_DEFAULT = md_pop_spec(True)
+MD_POPLIST = Spec(qualname="MultiDict.poplist", name="md_poplist", params=[("self.d", _MD_TY), ("key", "Str")], state=["d"], result="List ν", patterns=_MD_POPS, **_MD_COMMON)
+MD_POPITEM = Spec(qualname="MultiDict.popitem", name="md_popitem", params=[("self.d", _MD_TY)], state=["d"], result="Str × ν", raises=True, patterns=_MD_POPS, locals={"item": "Str × List ν"}, **_MD_COMMON)
+MD_POPITEMLIST = Spec(qualname="MultiDict.popitemlist", name="md_popitemlist", params=[("self.d", _MD_TY)], state=["d"], result="Str × List ν", raises=True, patterns=_MD_POPS, **_MD_COMMON)
+MD_UPDATE = Spec(
+    qualname="MultiDict.update", name="md_update", params=[("self.d", _MD_TY), ("mapping", "List (Str × ν)")], state=["d"], result="Unit",
+    # `iter_multi_items(mapping)`: the flat (key, value) pairs - the parameter is that list
+    calls={"iter_multi_items": Fn("id", [py2lean.Lst(Tup(STR, _NU))], py2lean.Lst(Tup(STR, _NU))), "self.add": Fn("md_add", [STR, _NU], py2lean.NONE, state=_MD_STATE)},
+    **_MD_COMMON,
+)
+MD_TO_DICT = Spec(
+    qualname="MultiDict.to_dict", name="md_to_dict_flat", params=[("self.d", _MD_TY), ("flat", "Bool")], result="Dict Str ν", raises=True,
+    static={"flat": True},
+    calls={"self.items": Fn("md_items self_d false", [], py2lean.Lst(Tup(STR, _NU)), raises=("IndexError",)), "dict": Fn("Pre.dictOfPairs", [py2lean.Lst(Tup(STR, _NU))], py2lean.Dct(STR, _NU))},
+    doc="`MultiDict.to_dict(flat=True)` of src/werkzeug/datastructures/structures.py, translated by tools/py2lean.py",
+    **_MD_COMMON,
+)
+MD_TO_DICT_LISTS = Spec(
+    qualname="MultiDict.to_dict", name="md_to_dict_lists", params=[("self.d", _MD_TY), ("flat", "Bool")], result="Dict Str (List ν)",
+    static={"flat": False},
+    calls={"self.lists": Fn("md_lists self_d", [], py2lean.Lst(Tup(STR, _LNU))), "dict": Fn("Pre.dictOfPairs", [py2lean.Lst(Tup(STR, _LNU))], _MD_T)},
+    doc="`MultiDict.to_dict(flat=False)` of src/werkzeug/datastructures/structures.py, translated by tools/py2lean.py",
+    **_MD_COMMON,
+)
+
 
 @generator("PyFns_MultiDict")
 def gen_multidict():
-    return emit_parts("MultiDict", [[MD_GETITEM, MD_SETITEM, MD_ADD, MD_GETLIST, MD_GETLIST_TYPED, MD_SETLIST, MD_LISTS, MD_VALUES, MD_LISTVALUES, MD_ITEMS]])
+    return emit_parts("MultiDict", [[MD_GETITEM, MD_SETITEM, MD_ADD, MD_GETLIST, MD_GETLIST_TYPED, MD_SETLIST, MD_SETDEFAULT, MD_SETLISTDEFAULT, MD_LISTS, MD_VALUES, MD_LISTVALUES, MD_ITEMS, MD_TO_DICT, MD_TO_DICT_LISTS, MD_UPDATE, MD_POP, MD_POP_DEFAULT, MD_POPITEM, MD_POPLIST, MD_POPITEMLIST]])
+
+
+# --------------------------------------------------------------------------
+# C15: ProxyFix (middleware/proxy_fix.py)
+
+_PF = "middleware/proxy_fix.py"
+PROXY_GET_REAL_VALUE = Spec(
+    module=_PF,
+    qualname="ProxyFix._get_real_value",
+    name="proxy_get_real_value",
+    params=[("trusted", "Int"), ("value", "Option Str")],
+    result="Option Str",
+    raises=True,  # `parse_list_header` / `values[-trusted]` carry IndexError arms (unreachable)
+    calls={"parse_list_header": Fn("Gen.PyFns_Http.parse_list_header", [STR], py2lean.Lst(STR), raises=("IndexError",))},
+)
+
+
+def _environ_get(n):
+    """`environ_get(K)` / `environ.get(K)` -> [environ, K]"""
+    import ast
+
+    if isinstance(n, ast.Call) and len(n.args) == 1 and not n.keywords and py2lean.dotted(n.func) in ("environ_get", "environ.get"):
+        return [ast.Name(id="environ", ctx=ast.Load()), n.args[0]]
+    return None
+
+
+def _rsplit1(n):
+    """`X.rsplit(<sep literal>, 1)` -> [X, sep]"""
+    import ast
+
+    if (isinstance(n, ast.Call) and isinstance(n.func, ast.Attribute) and n.func.attr == "rsplit" and len(n.args) == 2 and not n.keywords
+            and isinstance(n.args[0], ast.Constant) and isinstance(n.args[0].value, str) and n.args[0].value
+            and isinstance(n.args[1], ast.Constant) and n.args[1].value == 1):
+        return [n.func.value, n.args[0]]
+    return None
+
+
+_ENV_T = py2lean.Dct(STR, STR)
+_GRV = lambda attr: Fn(f"proxy_get_real_value self_{attr}", [Opt(STR)], Opt(STR), raises=("IndexError",))
+
+
+def _grv_call(attr):
+    """`self._get_real_value(self.<attr>, X)` -> [X]"""
+    import ast
+
+    def m(n):
+        if (isinstance(n, ast.Call) and py2lean.dotted(n.func) == "self._get_real_value" and len(n.args) == 2 and not n.keywords
+                and py2lean.dotted(n.args[0]) == "self." + attr):
+            return [n.args[1]]
+        return None
+
+    return m
+
+
+def _app_call(n):
+    """`self.app(environ, start_response)` -> [environ]: what is handed to the wrapped application"""
+    import ast
+
+    if isinstance(n, ast.Call) and py2lean.dotted(n.func) == "self.app" and len(n.args) == 2 and not n.keywords and isinstance(n.args[0], ast.Name) and n.args[0].id == "environ":
+        return [n.args[0]]
+    return None
+
+
+PROXY_FIX_CALL = Spec(
+    module=_PF,
+    qualname="ProxyFix.__call__",
+    name="proxy_fix_environ",
+    # the environ handed to the wrapped application (`return self.app(environ, start_response)`); its
+    # values are texts; the bookkeeping entry "werkzeug.proxy_fix.orig" (a nested dict) is left out
+    params=[("self.x_for", "Int"), ("self.x_proto", "Int"), ("self.x_host", "Int"), ("self.x_port", "Int"), ("self.x_prefix", "Int"), ("environ", "Dict Str Str"), ("start_response", "Unit")],
+    result="Dict Str Str",
+    raises=True,
+    effects={
+        "environ_get = environ.get": [],
+        _find_stmt_text(_PF, "ProxyFix.__call__", "environ.update({'werkzeug.proxy_fix.orig'") or "environ.update(...)": [],
+    },
+    patterns=[
+        (_environ_get, Fn("Pre.dictGet?", [_ENV_T, STR], Opt(STR))),
+        (_rsplit1, Fn("Pre.rsplit1", [STR, STR], py2lean.Lst(STR))),
+        (_app_call, Fn("id", [_ENV_T], _ENV_T)),
+    ] + [(_grv_call(a), _GRV(a)) for a in ("x_for", "x_proto", "x_host", "x_port", "x_prefix")],
+)
+
+
+@generator("PyFns_ProxyFix")
+def gen_proxy_fix():
+    return emit_parts("ProxyFix", [[PROXY_GET_REAL_VALUE, PROXY_FIX_CALL]], imports=("WzVerif.Gen.PyFns_Http",))
+
+
+# --------------------------------------------------------------------------
+# C19: WSGIRequestHandler.make_environ (serving.py), up to the TLS client-certificate lookup
+
+_SRV = "serving.py"
+URLSPLIT3 = py2lean.record("UrlSplit3", [("scheme", "Str"), ("netloc", "Str"), ("path", "Str"), ("query", "Str")])
+
+
+def _stmt_text(module, qualname, prefix):
+    t = _find_stmt_text(module, qualname, prefix)
+    return t if t is not None else prefix + " <statement not found in the current source>"
+
+
+def _whole_stmt_text(module, qualname, prefix):
+    """`ast.unparse` text of the (single) top-level statement of the function whose text starts with `prefix`"""
+    import ast
+
+    tr = py2lean.Translator(Spec(module=module, qualname=qualname, name="_", params=[], result="Unit"), REPO)
+    fn, _ = tr.find_def()
+    hits = [ast.unparse(x) for x in fn.body if ast.unparse(x).startswith(prefix)]
+    return hits[0] if len(hits) == 1 else prefix + " <statement not found in the current source>"
+
+
+def _headers_items(n):
+    import ast
+
+    try:
+        return [] if ast.unparse(n) == "self.headers.items()" else None
+    except Exception:  # noqa: BLE001
+        return None
+
+
+MAKE_ENVIRON = Spec(
+    module=_SRV,
+    qualname="WSGIRequestHandler.make_environ",
+    name="make_environ",
+    # the text-valued part of the environ and the `wsgi.input_terminated` decision; `urlsplit` /
+    # `unquote` (urllib), the TLS flag, the peer address and the server address are parameters;
+    # the message headers are the list of (name, value) pairs `self.headers.items()` yields
+    opaque=[
+        ("urlsplit", "Pre.Str → Except String (Pre.Str × Pre.Str × Pre.Str × Pre.Str)"), ("unquote", "Pre.Str → Pre.Str"),
+        ("tls", "Bool"), ("remote_addr", "Pre.Str"), ("server_name", "Pre.Str"), ("server_port", "Pre.Str"), ("server_version", "Pre.Str"),
+        ("headers", "List (Pre.Str × Pre.Str)"),
+    ],
+    params=[("self.path", "Str"), ("self.command", "Str"), ("self.request_version", "Str")],
+    result="Dict Str Str × Bool",
+    raises=True,
+    init_locals={"terminated_": ("false", "Bool")},
+    static={"self.client_address": True, "isinstance(self.client_address, str)": False},  # the peer address is a non-empty (host, port) tuple
+    dict_skip_keys=("wsgi.version", "wsgi.input", "wsgi.errors", "wsgi.multithread", "wsgi.multiprocess", "wsgi.run_once", "werkzeug.socket", "REMOTE_PORT"),
+    calls={
+        "urlsplit": Fn("urlsplit", [STR], URLSPLIT3, raises=("ValueError",)),
+        "unquote": Fn("unquote", [STR], STR),
+        "_wsgi_encoding_dance": Fn("Gen.PyFns_Url.wsgi_encoding_dance", [STR], STR),
+    },
+    patterns=[
+        (_src_matcher("self.server.ssl_context is None"), Fn("(!tls)", [], BOOL)),
+        (_src_matcher("self.server_version"), Fn("server_version", [], STR)),
+        (_src_matcher("self.address_string()"), Fn("remote_addr", [], STR)),
+        (_src_matcher("self.server.server_address[0]"), Fn("server_name", [], STR)),
+        (_src_matcher("str(self.server.server_address[1])"), Fn("server_port", [], STR)),
+        (_headers_items, Fn("headers", [], py2lean.Lst(Tup(STR, STR)))),
+    ],
+    effects={
+        "environ['wsgi.input_terminated'] = True": [("terminated_", "True")],
+        "environ['wsgi.input'] = DechunkedInput(environ['wsgi.input'])": [],
+    },
+    stop_at=(_whole_stmt_text(_SRV, "WSGIRequestHandler.make_environ", "try:\n    peer_cert"), "(environ, terminated_)"),
+)
+
+
+@generator("PyFns_MakeEnviron")
+def gen_make_environ():
+    return emit_parts("MakeEnviron", [[MAKE_ENVIRON]], imports=("WzVerif.Gen.PyFns_Url",))
 
 
 # --------------------------------------------------------------------------
